@@ -35,6 +35,7 @@ def main():
     try:
         if a.no_audit:
             audit = {'theorems': [], 'broken': []}
+            ctx.dev = True
         else:
             audit = core.audit(prop, mod.REQUIRED_THEOREMS)
             if tier == 'thorough':
